@@ -219,7 +219,7 @@ def to_bytes(v, size, sym, val):
         try:
             return v.to_bytes(size, "big"), None
         except OverflowError:
-            return None, f"int {v} does not fit {size} bytes"
+            return None, f"an int of {v.bit_length()} bits does not fit {size} bytes"
     if hasattr(v, "as_z3") and not z3.is_expr(v):
         v = v.as_z3()
     if z3.is_bv(v):
@@ -316,6 +316,7 @@ def gen_cases(r, tier):
                 steps += [("get_word", r.randrange(post, n)), ("selfcopy", n + 10, p, 8), ("read", n + 10, 8), ("get_word", n + 2), ("len",)]
                 if r.random() < 0.5:
                     steps += [("byte", r.randrange(post + 1, n), r.randrange(256)), ("get_word", r.randrange(post, n - 1)), ("read", post, min(64, n - post))]
+                steps += [("read", 0, r.choice([k for k in ks if k <= n])), ("read", r.randrange(0, off), min(off, 33)), ("unwrap",)]
                 add({"tag": "overwrite-word", "kind": kind, "N": n, "init": "leaf", "steps": steps})
             # (2) a sub-range of the leaf copied into an empty memory (CALLDATACOPY-like)
             a = r.randrange(1, max(2, n // 2))
@@ -340,7 +341,8 @@ def gen_cases(r, tier):
             add({"tag": "slice-of-slice", "kind": kind, "N": n, "init": "leaf", "steps": steps})
             # (4) a byte overwrite splits the leaf
             off = r.randrange(1, n - 1)
-            steps = [("byte", off, r.randrange(256)), ("get_word", off + 1), ("get_word", max(0, off - 31)), ("get_byte", off + 1), ("read", off + 1, min(r.choice(ks), n - off - 1)), ("read", off + 1, n - off - 1)]
+            steps = [("byte", off, r.randrange(256)), ("get_word", off + 1), ("get_word", max(0, off - 31)), ("get_byte", off + 1), ("read", off + 1, min(r.choice(ks), n - off - 1)), ("read", off + 1, n - off - 1),
+                     ("read", 0, min(off, r.choice(ks))), ("get_byte", 0), ("unwrap",)]
             add({"tag": "overwrite-byte", "kind": kind, "N": n, "init": "leaf", "steps": steps})
             # (5) nested chunk windows c[a1:b1][a2:b2]..., final window small or large
             for depth in (2, 3):
@@ -348,7 +350,7 @@ def gen_cases(r, tier):
                 ws = []
                 for d in range(depth):
                     last = d == depth - 1
-                    wa = r.randrange(1 if d == 0 else 0, max(2, length // 3))
+                    wa = r.randrange(1 if d == 0 and r.random() < 0.6 else 0, max(2, length // 3)) if r.random() < 0.8 else 0
                     if last:
                         k = r.choice([k for k in ks if k <= length - wa] or [1])
                         wb = wa + k
